@@ -94,8 +94,13 @@ def run(chk: lib.Check):
                     ids_b = UUID_RE.findall(fb.read_bytes())
                 if len(ids_a) < 2 or len(ids_b) < 2:
                     continue
-                ua = rng.choice(ids_a)
-                ub = rng.choice([x for x in ids_b if x != ua])
+                # which element: stratified over the ROOT element of the file (first id), its first children, the last element, any
+                pos = rng.choice(["root", "root", "early", "last", "any", "any"])
+                ua = {"root": ids_a[0], "early": ids_a[min(len(ids_a) - 1, rng.randint(1, 4))], "last": ids_a[-1]}.get(pos) or rng.choice(ids_a)
+                vpos = rng.choice(["any", "any", "any", "root", "early", "last"])
+                cand_b = [x for x in ids_b if x != ua]
+                ub = {"root": cand_b[0], "early": cand_b[min(len(cand_b) - 1, rng.randint(1, 4))], "last": cand_b[-1]}.get(vpos) or rng.choice(cand_b)
+                stats[f"placement-position:{pos}->{vpos}"] += 1
                 fb.write_bytes(plant(fb.read_bytes(), ua, ub))
                 kw = {k: v for k, v in spec.items() if k not in ("name", "path")}
                 stats[f"placement:{cls}"] += 1
